@@ -85,6 +85,7 @@ func c10Guards(p *chk.Prog, r *chk.Report) {
 	// the predicate as a function to look into: a literal (directly or through a local), a function of this module, or a
 	// method of the controller taken as a value on the receiver
 	predFn := func(e ast.Expr) (*chk.Fn, types.Object) {
+		e = unconv(f, e) // a literal converted to a named function type is still that literal
 		if lit := funcLitOf(f, g, e); lit != nil {
 			if len(lit.Type.Params.List) != 1 || len(lit.Type.Params.List[0].Names) != 1 {
 				return f.LitFn(lit), nil
